@@ -30,6 +30,18 @@ CLAIMED = {
             "Element contents are arbitrary bytes and do not influence control flow; zero-length elements are outside "
             "the statement; TLC, Wire.tla and the projection code are trusted.",
             "DESIGN.md section 5 C19"),
+    "C11": ("TLA+ Bech32 spec at real scale: TLC checks the version x length rule grid, decides <=4-error detection "
+            "by syndrome-state counting on the spec's polymod, and validates recorded encode/decode calls",
+            "Bech32.tla specifies polymod, checksum constants, string and segwit-address rules as named conjuncts. "
+            "TLC (i) checks round trip / no-address / constant / padding / case / prefix rules on the whole grid "
+            "version 0..17 x length 0..42, (ii) decides error detection completely for weight <=4 (same constant) "
+            "and weight <=3 (cross constant) at the address lengths the library emits by counting distinct syndrome "
+            "states (linearity), (iii) validates each recorded bech32.encode/decode call, including all single "
+            "substitutions and sampled 2/3/4-substitutions of valid addresses and crafted valid-checksum rule "
+            "violations, against the same operators.",
+            "The link from the syndrome argument to the implementation is the trace validation of polymod-dependent "
+            "results (every encode compares the full string); HRP/separator errors are covered by sampling only.",
+            "DESIGN.md section 5 C11"),
 }
 
 ALL = ["C%02d" % i for i in range(1, 21)]
